@@ -44,7 +44,8 @@ TAL_BASIC = [K("k3::S-Define"), K("k3::S-Define-clauses"), K("k3::S-Condition"),
              K("k3::S-Attribute"), K("k3::S-Combined"), K("k3::S-Repeat")]
 
 S_TALES = [K("k3::S-Pipe3"), K("k3::S-Not"), K("k3::S-Exists"), K("k3::S-LambdaScope")]
-S_INTERP = [K("k3::S-Interp-text"), K("k3::S-Interp-off"), K("k3::S-Interp-lines")]
+S_INTERP = [K("k3::S-Interp-text"), K("k3::S-Interp-off"), K("k3::S-Interp-lines"),
+            K("k3::S-Interp-percent")]
 S_I18N = [K("k3::S-Translate-name"), K("k3::S-Translate-id"), K("k3::S-Translate-empty"),
           K("k3::S-I18nDomain"), K("k3::S-I18nContext"), K("k3::S-I18nTarget")]
 S_METAL = [K("k3::S-UseExternal"), K("k3::S-MacroUseInternal"), K("k3::S-MacroBody"),
@@ -78,8 +79,7 @@ PROPS = {
          K("k3::S-OnError-Define"), K("k3::S-GlobalInLocal"), FRESH] +
         [K("utils.py::Scope." + m) for m in ("get", "__getitem__", "__contains__", "get_name", "set_global", "copy")],
         ["utils.Scope.__iter__ / keys / items (generators over two dict layers)",
-         "after a nested tal:repeat that reuses the outer loop's name, repeat[name] still "
-         "refers to the exhausted inner item (DESIGN D15; not derived by a check)"]),
+         ]),
     "C06": k3prop(
         "Emitted code for ${...} in text is proved to append the literal parts unchanged with $$ "
         "un-doubled, each expression converted once; with meta:interpolation off nothing is evaluated.",
@@ -306,7 +306,7 @@ PROPS = {
                       "position (unbounded: beyond 26 and 3999).",
         "level_note": "Trusted: list_iterator.__length_hint__ axiom, str/int builtin models "
                       "(conformance-tested). " + K3_NOTE,
-        "units": REPEAT + [K("k3::S-Repeat"), FRESH],
+        "units": REPEAT + [K("k3::S-Repeat"), K("k3::S-Repeat-indent"), FRESH],
         "not_decided": [
                         "roman()/lower() case mapping", "whitespace computed by visit_element"],
         "assumptions": COMMON_ASSUMPTIONS,
